@@ -101,7 +101,7 @@ func genSubjects(rng *Rng, sas []string) *gnode {
 	n := 1 + rng.Intn(3)
 	l := &gnode{kind: 2}
 	for i := 0; i < n; i++ {
-		s := gM()
+		s := c08gM()
 		switch r := rng.Intn(100); {
 		case r < 70:
 			s.set("kind", gT("ServiceAccount"))
@@ -124,7 +124,7 @@ func genSubjects(rng *Rng, sas []string) *gnode {
 		case r < 95:
 			s.set("name", gT("null"))
 		case r < 96:
-			s.set("name", gM("x", "y"))
+			s.set("name", c08gM("x", "y"))
 		}
 		switch r := rng.Intn(100); {
 		case r < 45:
@@ -135,14 +135,14 @@ func genSubjects(rng *Rng, sas []string) *gnode {
 		case r < 94:
 			s.set("namespace", gT("null"))
 		case r < 96:
-			s.set("namespace", gM("x", "y"))
+			s.set("namespace", c08gM("x", "y"))
 		default:
 			s.set("namespace", gT(""))
 		}
 		if rng.Chance(3) {
 			l.vals = append(l.vals, gT("scalar-subject"))
 		} else if len(s.keys) == 0 {
-			l.vals = append(l.vals, gM("kind", "User"))
+			l.vals = append(l.vals, c08gM("kind", "User"))
 		} else {
 			l.vals = append(l.vals, s)
 		}
@@ -159,55 +159,55 @@ func genRes09(rng *Rng, name string, sas *[]string) c09Res {
 		*sas = append(*sas, name)
 	}
 	av := rng.Pick(k.avs)
-	meta := gM("name", name)
+	meta := c08gM("name", name)
 	nsSlot(rng, meta)
 	if rng.Chance(15) {
-		meta.set("annotations", gM("note", "x"))
+		meta.set("annotations", c08gM("note", "x"))
 	}
 	if rng.Chance(10) {
-		meta.set("labels", gM("app", "x"))
+		meta.set("labels", c08gM("app", "x"))
 	}
-	doc := gM("apiVersion", av, "kind", k.kind, "metadata", meta)
+	doc := c08gM("apiVersion", av, "kind", k.kind, "metadata", meta)
 	switch k.kind {
 	case "Deployment":
-		spec := gM("template", gM("spec", gM("containers", gS(gM("name", "c", "image", "nginx")))))
+		spec := c08gM("template", c08gM("spec", c08gM("containers", c08gS(c08gM("name", "c", "image", "nginx")))))
 		if rng.Chance(40) {
 			spec.vals[0].vals[0].set("serviceAccountName", gT(rng.Pick(c09Names)))
 		}
 		doc.set("spec", spec)
 	case "ConfigMap":
-		doc.set("data", gM("k", "v"))
+		doc.set("data", c08gM("k", "v"))
 	case "Service":
-		doc.set("spec", gM("ports", gS(gM("port", "80"))))
+		doc.set("spec", c08gM("ports", c08gS(c08gM("port", "80"))))
 	case "Role", "ClusterRole":
-		doc.set("rules", gS(gM("verbs", gS(gT("get")))))
+		doc.set("rules", c08gS(c08gM("verbs", c08gS(gT("get")))))
 	case "RoleBinding", "ClusterRoleBinding":
 		rk := "Role"
 		if k.kind == "ClusterRoleBinding" || rng.Chance(30) {
 			rk = "ClusterRole"
 		}
-		doc.set("roleRef", gM("apiGroup", "rbac.authorization.k8s.io", "kind", rk, "name", "r"))
+		doc.set("roleRef", c08gM("apiGroup", "rbac.authorization.k8s.io", "kind", rk, "name", "r"))
 		if rng.Chance(92) {
 			doc.set("subjects", genSubjects(rng, *sas))
 		}
 	case "CustomResourceDefinition":
-		spec := gM("group", "example.com")
+		spec := c08gM("group", "example.com")
 		switch r := rng.Intn(100); {
 		case r < 40:
-			spec.set("conversion", gM("strategy", "Webhook", "webhook", gM("clientConfig", gM("service", gM("name", "svc", "namespace", rng.Pick(c09Namespaces))))))
+			spec.set("conversion", c08gM("strategy", "Webhook", "webhook", c08gM("clientConfig", c08gM("service", c08gM("name", "svc", "namespace", rng.Pick(c09Namespaces))))))
 		case r < 55:
-			spec.set("conversion", gM("strategy", "Webhook", "webhook", gM("clientConfig", gM("service", gM("name", "svc")))))
+			spec.set("conversion", c08gM("strategy", "Webhook", "webhook", c08gM("clientConfig", c08gM("service", c08gM("name", "svc")))))
 		case r < 60:
-			spec.set("conversion", gM("strategy", "Webhook", "webhook", gM("clientConfig", gM("service", gM("name", "svc", "namespace", gM("x", "y"))))))
+			spec.set("conversion", c08gM("strategy", "Webhook", "webhook", c08gM("clientConfig", c08gM("service", c08gM("name", "svc", "namespace", c08gM("x", "y"))))))
 		}
 		doc.set("spec", spec)
 	case "APIService":
-		spec := gM("group", "example.com")
+		spec := c08gM("group", "example.com")
 		switch r := rng.Intn(100); {
 		case r < 50:
-			spec.set("service", gM("name", "svc", "namespace", rng.Pick(c09Namespaces)))
+			spec.set("service", c08gM("name", "svc", "namespace", rng.Pick(c09Namespaces)))
 		case r < 70:
-			spec.set("service", gM("name", "svc"))
+			spec.set("service", c08gM("name", "svc"))
 		case r < 75:
 			spec.set("service", gT("null"))
 		case r < 80:
@@ -215,13 +215,13 @@ func genRes09(rng *Rng, name string, sas *[]string) c09Res {
 		}
 		doc.set("spec", spec)
 	case "PersistentVolume":
-		doc.set("spec", gM("capacity", gM("storage", "1Gi")))
+		doc.set("spec", c08gM("capacity", c08gM("storage", "1Gi")))
 	case "StorageClass":
 		doc.set("provisioner", gT("x"))
 	case "Widget":
-		doc.set("spec", gM("size", "1"))
+		doc.set("spec", c08gM("size", "1"))
 	case "Ingress":
-		doc.set("spec", gM("rules", gS(gM("host", "h"))))
+		doc.set("spec", c08gM("rules", c08gS(c08gM("host", "h"))))
 	}
 	return c09Res{Kind: k.kind, Name: name, Yaml: doc.yaml()}
 }
@@ -234,7 +234,7 @@ func twin09(rng *Rng, r c09Res) (c09Res, bool) {
 		return r, false
 	}
 	av, _ := strAt(n.YNode(), "apiVersion")
-	meta := gM("name", r.Name)
+	meta := c08gM("name", r.Name)
 	switch x := rng.Intn(100); {
 	case x < 30:
 	case x < 60:
@@ -244,7 +244,7 @@ func twin09(rng *Rng, r c09Res) (c09Res, bool) {
 	default:
 		meta.set("namespace", gT(rng.Pick(c09Namespaces)))
 	}
-	return c09Res{Kind: r.Kind, Name: r.Name, Yaml: gM("apiVersion", av, "kind", r.Kind, "metadata", meta).yaml()}, true
+	return c09Res{Kind: r.Kind, Name: r.Name, Yaml: c08gM("apiVersion", av, "kind", r.Kind, "metadata", meta).yaml()}, true
 }
 
 func genTree09(rng *Rng, depth int, top bool) *c09Tree {
@@ -284,22 +284,22 @@ func genTree09x(rng *Rng, depth int, top bool, all *[]c09Res) *c09Tree {
 				continue
 			}
 			used[nm] = true
-			meta := gM("name", nm)
+			meta := c08gM("name", nm)
 			nsSlot(rng, meta)
 			t.Own = append(t.Own, c09Res{Kind: "ServiceAccount", Name: nm,
-				Yaml: gM("apiVersion", "v1", "kind", "ServiceAccount", "metadata", meta).yaml()})
+				Yaml: c08gM("apiVersion", "v1", "kind", "ServiceAccount", "metadata", meta).yaml()})
 			sas = append(sas, nm)
 		}
 		nb := 1 + rng.Intn(2)
 		for i := 0; i < nb; i++ {
 			kind := rng.Pick([]string{"RoleBinding", "RoleBinding", "ClusterRoleBinding"})
-			meta := gM("name", fmt.Sprintf("bind%d", i))
+			meta := c08gM("name", fmt.Sprintf("bind%d", i))
 			if kind == "RoleBinding" {
 				nsSlot(rng, meta)
 			}
 			subj := &gnode{kind: 2}
 			for j := 0; j < 1+rng.Intn(2); j++ {
-				sj := gM("kind", "ServiceAccount", "name", rng.Pick(append([]string{"default"}, sas...)))
+				sj := c08gM("kind", "ServiceAccount", "name", rng.Pick(append([]string{"default"}, sas...)))
 				switch r := rng.Intn(100); {
 				case r < 40:
 				case r < 85:
@@ -309,8 +309,8 @@ func genTree09x(rng *Rng, depth int, top bool, all *[]c09Res) *c09Tree {
 				}
 				subj.vals = append(subj.vals, sj)
 			}
-			doc := gM("apiVersion", "rbac.authorization.k8s.io/v1", "kind", kind, "metadata", meta,
-				"roleRef", gM("apiGroup", "rbac.authorization.k8s.io", "kind", "ClusterRole", "name", "r"), "subjects", subj)
+			doc := c08gM("apiVersion", "rbac.authorization.k8s.io/v1", "kind", kind, "metadata", meta,
+				"roleRef", c08gM("apiGroup", "rbac.authorization.k8s.io", "kind", "ClusterRole", "name", "r"), "subjects", subj)
 			t.Own = append(t.Own, c09Res{Kind: kind, Name: fmt.Sprintf("bind%d", i), Yaml: doc.yaml()})
 		}
 	}
@@ -340,7 +340,7 @@ func kustomization09(t *c09Tree, files []string) string {
 		}
 	}
 	if t.Namespace != "" {
-		fmt.Fprintf(&b, "namespace: %s\n", q(t.Namespace))
+		fmt.Fprintf(&b, "namespace: %s\n", c08q(t.Namespace))
 	}
 	return b.String()
 }
@@ -531,7 +531,7 @@ func oracles09(r *Run, t *c09Tree, flat []flat09, bo build09) {
 	}
 	if bo.cls == ClsPanic {
 		// panics on malformed subjects (resmap.getNamespacesForRoleBinding) belong to C12, not to this property
-		r.Count("panic", firstN(bo.msg, 60))
+		r.Count("panic", c08firstN(bo.msg, 60))
 		return
 	}
 	if bo.cls != ClsOk {
@@ -568,19 +568,19 @@ func oracles09(r *Run, t *c09Tree, flat []flat09, bo build09) {
 			r.Count("oracle", "cluster_untouched")
 			if hadIn != hasOut || nsIn != nsOut {
 				report("cluster_untouched", "C09/cluster_untouched",
-					fmt.Sprintf("cluster-scoped %s %s: metadata.namespace %q(present=%v) -> %q(present=%v)", kind, name, nsIn, hadIn, nsOut, hasOut))
+					fmt.Sprintf("cluster-scoped %s %s: metadata.namespace %c08q(present=%v) -> %c08q(present=%v)", kind, name, nsIn, hadIn, nsOut, hasOut))
 			}
 		} else if want != "" {
 			r.Count("oracle", "moved")
 			if !hasOut || nsOut != want {
 				report("moved", "C09/moved",
-					fmt.Sprintf("namespaced %s %s: namespace %q, outermost directive %q", kind, name, nsOut, want))
+					fmt.Sprintf("namespaced %s %s: namespace %c08q, outermost directive %c08q", kind, name, nsOut, want))
 			}
 		} else {
 			r.Count("oracle", "no_directive")
 			if hadIn != hasOut || nsIn != nsOut {
 				report("moved", "C09/changed-without-directive",
-					fmt.Sprintf("%s %s: namespace changed from %q to %q without any directive on its chain", kind, name, nsIn, nsOut))
+					fmt.Sprintf("%s %s: namespace changed from %c08q to %c08q without any directive on its chain", kind, name, nsIn, nsOut))
 			}
 		}
 		id := idt{av, kind, name, effNs(nsOut, cluster)}
@@ -651,7 +651,7 @@ func oracles09(r *Run, t *c09Tree, flat []flat09, bo build09) {
 					cls = "C09/subjects/non-default-account"
 				}
 				report("subjects", cls,
-					fmt.Sprintf("%s %s subject %d (ServiceAccount %s): namespace %q, the account is in %q", fr.Res.Kind, fr.Res.Name, j, nm, gotNs, wantNs))
+					fmt.Sprintf("%s %s subject %d (ServiceAccount %s): namespace %c08q, the account is in %c08q", fr.Res.Kind, fr.Res.Name, j, nm, gotNs, wantNs))
 			}
 		}
 	}
@@ -662,12 +662,12 @@ func oracles09(r *Run, t *c09Tree, flat []flat09, bo build09) {
 type c09FilterCase struct {
 	Doc       string   `json:"doc"`
 	Namespace string   `json:"namespace"`
-	Fss       []fsSpec `json:"fss"`
+	Fss       []c08fsSpec `json:"fss"`
 	UnsetOnly bool     `json:"unsetOnly"`
 	Mode      string   `json:"mode"`
 }
 
-var c09Rows = []fsSpec{
+var c09Rows = []c08fsSpec{
 	{Kind: "Namespace", Path: "metadata/name", Create: true},
 	{Group: "apiregistration.k8s.io", Kind: "APIService", Path: "spec/service/namespace", Create: true},
 	{Group: "apiextensions.k8s.io", Kind: "CustomResourceDefinition", Path: "spec/conversion/webhook/clientConfig/service/namespace"},
@@ -807,7 +807,7 @@ func runBuild09Case(r *Run, t *c09Tree, toModel bool) {
 			strings.Contains(bo.msg, "namespace field specs must target scalar nodes"):
 			r.Count("build_error", "namespace filter error")
 		default:
-			r.Count("build_error", "other: "+firstN(bo.msg, 70))
+			r.Count("build_error", "other: "+c08firstN(bo.msg, 70))
 		}
 	}
 	oracles09(r, t, flat, bo)
@@ -825,7 +825,7 @@ func runBuild09Case(r *Run, t *c09Tree, toModel bool) {
 			!strings.Contains(bo.msg, "namespace transformation failed") && !strings.Contains(bo.msg, "role binding subject") &&
 			!strings.Contains(bo.msg, "namespace field specs must target scalar nodes") {
 			// an error raised after the namespace transformer (name references following the move)
-			r.Count("build_skipped", "error of a later stage: "+firstN(bo.msg, 50))
+			r.Count("build_skipped", "error of a later stage: "+c08firstN(bo.msg, 50))
 			r.Meta.Skipped++
 			return
 		}
@@ -967,7 +967,7 @@ func replayC09(path string) (bool, string, error) {
 	}
 	if wrap.Filter != nil {
 		cls, doc, msg := execFilter09(*wrap.Filter)
-		return cls == ClsPanic, fmt.Sprintf("class=%s msg=%q after=%s", cls, msg, docString(doc)), nil
+		return cls == ClsPanic, fmt.Sprintf("class=%s msg=%c08q after=%s", cls, msg, docString(doc)), nil
 	}
 	if t == nil {
 		return false, "", fmt.Errorf("replay file has neither a build tree nor a filter case")
@@ -978,7 +978,7 @@ func replayC09(path string) (bool, string, error) {
 	bo := runBuild09(t)
 	oracles09(r, t, flat, bo)
 	var b strings.Builder
-	fmt.Fprintf(&b, "class=%s msg=%q\n", bo.cls, bo.msg)
+	fmt.Fprintf(&b, "class=%s msg=%c08q\n", bo.cls, bo.msg)
 	for _, o := range bo.outs {
 		s, _ := o.String()
 		fmt.Fprintf(&b, "---\n%s", s)
